@@ -24,6 +24,8 @@ type SpecEnv struct {
 	vars  map[string]SV
 	pkg   string
 	depth int
+	qd    int // quantifier nesting depth (bound variables are named by name and depth, so that the same spec
+	// expression always yields the same SMT text and alpha-equivalent assumptions/goals are syntactically equal)
 }
 
 var tInt = types.Typ[types.Int]
@@ -256,8 +258,7 @@ func (e *SpecEnv) objValue(o types.Object) SV {
 			if m, ok := sp.Members[c.Name()]; ok {
 				if gl, ok := m.(*ssa.Global); ok {
 					sh := e.shadow()
-					a := e.g.globalAddr(gl)
-					return SV{sh.derefLoad(sh.ptrTo(c.Type(), a), c.Type()), c.Type()}
+					return SV{sh.derefLoad(sh.globalPtr(gl), c.Type()), c.Type()}
 				}
 			}
 		}
@@ -379,8 +380,7 @@ func (e *SpecEnv) tr(x *Expr) SV {
 			if err != nil {
 				specFail("%v", err)
 			}
-			e.g.nfresh++
-			n := sym(fmt.Sprintf("q.%s.%d", b.Name, e.g.nfresh))
+			n := sym(fmt.Sprintf("q.%s.%d", b.Name, e.qd))
 			bs = append(bs, fmt.Sprintf("(%s %s)", n, smtSortOf(t)))
 			if isBool(t) {
 				extra[b.Name] = SV{BoolV(n), t}
@@ -394,7 +394,9 @@ func (e *SpecEnv) tr(x *Expr) SV {
 				}
 			}
 		}
-		body := e.withVars(extra).tr(x.Args[0])
+		inner := e.withVars(extra)
+		inner.qd = e.qd + 1
+		body := inner.tr(x.Args[0])
 		if body.V.K != KBool {
 			specFail("quantifier body is not boolean")
 		}
